@@ -206,6 +206,85 @@ def regimes(rep, pid, cases, label):
             got = _grads(mod, args[0], cl)
             if not all(_close(p, q) for p, q in zip(got, ref)):
                 report("cotangents handed over as %s tensors vs their contiguous copies" % lname)
+        # (e) STRUCTURED cotangents.  Back-propagation is linear in the cotangent; a backward that looks at the cotangent's values
+        # ("nothing flows back through these bands: skip them") is exercised only by cotangents with structure - confined to one
+        # band / part / channel block, one-hot, or cancelling - which a dense random one never has.  For splits g = p + q of the
+        # dense cotangent and for contrasts e_i - e_j: VJP(p) + VJP(q) = VJP(g), VJP(e_i - e_j) = VJP(e_i) - VJP(e_j).
+        dense = alone[0]
+
+        def vjp(cl):
+            return _grads(mod, args[0], cl)
+
+        def add(ga, gb, sign=1.0):
+            out = []
+            for p_, q_ in zip(ga, gb):
+                if p_ is None and q_ is None:
+                    out.append(None)
+                else:
+                    a_ = p_ if p_ is not None else torch.zeros_like(q_)
+                    b_ = q_ if q_ is not None else torch.zeros_like(p_)
+                    out.append(a_ + sign * b_)
+            return out
+
+        def same(ga, gb):
+            for p_, q_ in zip(ga, gb):
+                if p_ is None or q_ is None:
+                    other_ = q_ if p_ is None else p_
+                    if other_ is not None and float(other_.abs().max()) > 0.0:
+                        return False
+                elif not _close(p_, q_):
+                    return False
+            return True
+        zeros = [torch.zeros_like(c) for c in cots[0]]
+        for ti, c in enumerate(cots[0]):
+            splits = []
+            for ax in range(1, c.dim()):
+                sz = c.shape[ax]
+                if sz < 2:
+                    continue
+                if sz <= 8:
+                    ks = [("index %d of axis %d" % (k_, ax), slice(k_, k_ + 1)) for k_ in sorted({0, int(rng.integers(sz)), sz - 1})]
+                elif ax == 1:
+                    ks = [("the first %d of the %d channels" % (k_, sz), slice(0, k_)) for k_ in sorted({1, sz // 7 if sz % 7 == 0 else 1, sz // 49 if sz % 49 == 0 else 1, sz // 2})]
+                else:
+                    continue
+                for lbl, sl in ks:
+                    m_ = torch.zeros_like(c)
+                    idx = [slice(None)] * c.dim()
+                    idx[ax] = sl
+                    m_[tuple(idx)] = 1.0
+                    splits.append((lbl, m_))
+            for lbl, m_ in splits:
+                rep.validated()
+                n += 1
+                part = [z.clone() for z in zeros]
+                part[ti] = c * m_
+                rest = [x_.clone() for x_ in cots[0]]
+                rest[ti] = c * (1.0 - m_)
+                if not same(add(vjp(part), vjp(rest)), dense):
+                    report("a cotangent confined to %s of output %d, plus the rest, vs the dense cotangent (back-propagation is "
+                           "linear in the cotangent)" % (lbl, ti))
+                    break
+            rep.nontriv(("regime", name, "structured cotangents", ti))
+            for _ in range(4):
+                pos = [int(rng.integers(sz)) for sz in c.shape]
+                pos2 = list(pos)
+                sp = [ax for ax in range(max(c.dim() - 2, 1), c.dim()) if c.shape[ax] > 1]
+                if not sp:
+                    break
+                for ax in sp:
+                    pos2[ax] = (pos[ax] + 1 + int(rng.integers(c.shape[ax] - 1))) % c.shape[ax]
+                ei, ej = [z.clone() for z in zeros], [z.clone() for z in zeros]
+                ei[ti][tuple(pos)] = 1.0
+                ej[ti][tuple(pos2)] = 1.0
+                con = [z.clone() for z in zeros]
+                con[ti][tuple(pos)] = 1.0
+                con[ti][tuple(pos2)] = -1.0
+                rep.validated()
+                n += 1
+                if not same(vjp(con), add(vjp(ei), vjp(ej), -1.0)):
+                    report("the contrast cotangent e_i - e_j (positions %s and %s of output %d: its entries cancel) vs VJP(e_i) - VJP(e_j)" % (pos, pos2, ti))
+                    break
     rep.count("autograd_regime_cases", n)
 
 
@@ -265,6 +344,8 @@ def scat_cases():
     return [("ScatLayer()", lambda: pw.ScatLayer(), [t(1, 2, 8, 12), t(1, 2, 7, 9)], lambda: pw.ScatLayer(biort="near_sym_b", magbias=0.3), "stackable"),
             ("ScatLayer(near_sym_b_bp)", lambda: pw.ScatLayer(biort="near_sym_b_bp"), [t(2, 1, 12, 8), t(1, 2, 6, 10)], lambda: pw.ScatLayer(magbias=0.5), "stackable"),
             ("ScatLayer(near_sym_b_bp,colour)", lambda: pw.ScatLayer(biort="near_sym_b_bp", combine_colour=True), [t(1, 3, 8, 8), t(2, 3, 6, 10)]),
+            ("ScatLayer(mode=zero)", lambda: pw.ScatLayer(mode="zero"), [t(1, 2, 8, 10), t(2, 1, 6, 6)], lambda: pw.ScatLayer(biort="near_sym_b", mode="zero")),
+            ("ScatLayer(near_sym_b,colour,mode=zero)", lambda: pw.ScatLayer(biort="near_sym_b", combine_colour=True, mode="zero"), [t(1, 3, 8, 8), t(1, 3, 6, 10)]),
             ("ScatLayerj2()", lambda: pw.ScatLayerj2(), [t(1, 2, 16, 8), t(1, 1, 12, 10)], lambda: pw.ScatLayerj2(biort="near_sym_b", qshift="qshift_c")),
             ("ScatLayerj2(near_sym_b_bp)", lambda: pw.ScatLayerj2(biort="near_sym_b_bp", qshift="qshift_b_bp"), [t(1, 2, 8, 16), t(1, 2, 16, 16)])]
 
